@@ -110,6 +110,36 @@ Proof.
   cbv beta in X. rewrite upd_eq in X. apply X. intros i N. rewrite upd_neq by exact N. reflexivity.
 Qed.
 
+(* the heart of (ii) and (iv): when poll is about to answer Finished every arm has ended, every kernel half is through,
+   every event - Normal and Done - has been consumed *)
+Lemma finished_all_gone s : Inv s -> opc s = P2 -> evq s = [] -> oalld s = true ->
+  (forall a, a < nexta s -> pc s a = ADone /\ dpop s a = 1) /\
+  (forall e, e < nexte s -> kpc s e = KDone /\ epop s e = 1) /\ evq s = [].
+Proof.
+  intros I Eo Eq AD.
+  assert (QA : forall a, a < nexta s -> pc s a = ADone /\ dpop s a = 1).
+  { intros a L. pose proof (L_all _ I Eo AD a L) as DS.
+    destruct (A_dp _ I a) as [P1 P2]. rewrite DS in P1.
+    assert (D1 : dpop s a = 1).
+    { destruct (dpop s a) as [|[|?]] eqn:ED; [exfalso | reflexivity | lia].
+      assert (X : In (EDone a) (qall s)) by (apply (Q_done _ I); split; assumption).
+      unfold qall in X. rewrite Eo, Eq in X. destruct X. }
+    split; [|exact D1].
+    destruct (D_join _ I a D1) as [J|[J _]]; [|rewrite Eo in J; discriminate].
+    rewrite (A_jst _ I) in J. destruct (pc s a); try discriminate; reflexivity. }
+  split; [exact QA|]. split; [|exact Eq].
+  intros e L. destruct (E_arm _ I e L) as (LA & _ & _). destruct (QA _ LA) as [PA _].
+  assert (P1 : epop s e = 1).
+  { destruct (E_cnt _ I e) as [C1 C2]. destruct (epop s e) as [|[|?]] eqn:EP; [exfalso | reflexivity | destruct (kpost (kpc s e)); lia].
+    destruct (E_pop0 _ I e L EP) as [X _]. rewrite PA in X. discriminate. }
+  split; [|exact P1].
+  destruct (E_cnt _ I e) as [C1 C2]. rewrite P1 in C1.
+  assert (KP : kpost (kpc s e) = true) by (destruct (kpost (kpc s e)); [reflexivity | lia]).
+  assert (K0' : kern s (earm s e) = 0) by (apply (A_k0 _ I); rewrite PA; reflexivity).
+  destruct (kpc s e) eqn:EK; try discriminate; try reflexivity.
+  all: pose proof (kact_kern_pos s e I) as X; rewrite EK in X; specialize (X eq_refl); lia.
+Qed.
+
 Ltac facts I :=
   pose proof (A_ex _ I) as QAex; pose proof (E_ex _ I) as QEex; pose proof (B_fr _ I) as QBfr;
   pose proof (A_new _ I) as QAnew; pose proof (E_new _ I) as QEnew; pose proof (I_tot _ I) as QItot;
